@@ -279,7 +279,7 @@ def task_nested(ctx, length, lengths, out_shape, with_grad):
 
 def task_accumulate(ctx):
   from dinosaur import time_integration as ti
-  ctx.encoded(ti.accumulate_repeated, ti.digital_filter_initialization, ti._dfi_lanczos_weights)
+  ctx.encoded(ti.accumulate_repeated, ti.digital_filter_initialization, ti._dfi_lanczos_weights, ti.TimeReversedImExODE.explicit_terms, ti.TimeReversedImExODE.implicit_terms, ti.TimeReversedImExODE.implicit_inverse)
   for n in (1, 3, 6):
     def impl(a, b, w, n=n):
       return ti.accumulate_repeated(step, w, (a, b))
@@ -331,6 +331,46 @@ def task_accumulate(ctx):
     for call in ('first', 'repeat'):
       decide_equal(ctx, 'digital_filter_initialization.equals_defining_sum', dict(time_span=span, cutoff_period=cutoff, dt=dt, N=len(w), evaluation=call),
                    impl2, spec2, [(2,), (2,)], logic='QF_UFLRA', eps=1e-12, box=1.0)
+  # the same defining sum with an UNINTERPRETED EQUATION (explicit terms F, implicit terms G and one uninterpreted solve per step size) driven by the
+  # library's own integrators: the backward half must integrate the documented time reversal  dx/dt = -F(x) - G(x), whose implicit solve is
+  # (1 - s (-G))^-1 = the forward solve at step size -s.  The reversal is written out here (RevSpec); ti.TimeReversedImExODE must agree with it.
+  def _named(s_):
+    return repr(float(s_)).replace('-', 'm')
+
+  class UEq(ti.ImplicitExplicitODE):
+    def explicit_terms(self, u): return (uf('F_a', u[0], u[1]), uf('F_b', u[0], u[1]))
+    def implicit_terms(self, u): return (uf('G_a', u[0], u[1]), uf('G_b', u[0], u[1]))
+    def implicit_inverse(self, u, step_size): return (uf(f'solve[{_named(step_size)}]_a', u[0], u[1]), uf(f'solve[{_named(step_size)}]_b', u[0], u[1]))
+
+  class RevSpec(ti.ImplicitExplicitODE):
+    def explicit_terms(self, u): return tuple(-x for x in UEq().explicit_terms(u))
+    def implicit_terms(self, u): return tuple(-x for x in UEq().implicit_terms(u))
+    def implicit_inverse(self, u, step_size): return UEq().implicit_inverse(u, -step_size)
+  for s_ in (0.25, -0.5, 1.0):
+    decide_equal(ctx, 'time_reversed_equation.terms_and_solve_are_those_of_the_reversed_ode', dict(step_size=s_),
+                 lambda a, b, s_=s_: (ti.TimeReversedImExODE(UEq()).explicit_terms((a, b)), ti.TimeReversedImExODE(UEq()).implicit_terms((a, b)), ti.TimeReversedImExODE(UEq()).implicit_inverse((a, b), s_)),
+                 lambda a, b, s_=s_: (RevSpec().explicit_terms((a, b)), RevSpec().implicit_terms((a, b)), RevSpec().implicit_inverse((a, b), s_)),
+                 [(2,), (2,)], logic='QF_UFLRA')
+  for integ, (span, cutoff, dt) in (('backward_forward_euler', (4.0, 3.0, 0.5)), ('crank_nicolson_rk2', (2.0, 3.0, 0.5)), ('imex_rk_sil3', (1.0, 2.0, 0.5))):
+    w0, w = lanczos_spec(span, cutoff, dt)
+    integrator = getattr(ti, integ)
+
+    def impl3(a, b, integrator=integrator, span=span, cutoff=cutoff, dt=dt):
+      return ti.digital_filter_initialization(UEq(), integrator, [filt(0)], span, cutoff, dt)((a, b))
+
+    def spec3(a, b, integrator=integrator, w0=w0, w=w, dt=dt):
+      x = (a, b)
+      acc = (w0 * a, w0 * b)
+      for eq_ in (UEq(), RevSpec()):
+        stp = integrator(eq_, dt)
+        u = x
+        for wn in w:
+          un = stp(u)
+          u = filt(0)(u, un)
+          acc = (acc[0] + wn * u[0], acc[1] + wn * u[1])
+      return acc
+    decide_equal(ctx, 'digital_filter_initialization.equals_defining_sum_for_uninterpreted_equation', dict(time_span=span, cutoff_period=cutoff, dt=dt, N=len(w), integrator=integ),
+                 impl3, spec3, [(2,), (2,)], logic='QF_UFLRA', eps=1e-12, box=1.0)
   # digital filter initialisation returns a steady state unchanged (step(x0) = x0 axiomatised for THIS x0)
   for (span, cutoff, dt) in ((6.0, 6.0, 1.0), (4.0, 3.0, 0.5)):
     def solver(eq, dt_):
